@@ -294,6 +294,80 @@ def _stop_rule(ctx, repo, worker, lp, pre, env, facts, interior, NB, T, S, fs0):
     ctx.shared["C06.count"] = cnt
 
 
+def _stop_rule_start_ownership(ctx, repo, worker, lp, pre, env, facts, NB, T, S):
+    """Worker i handles the batches whose START lies in its chunk: `while first_s < max_s` with max_s = (i+1)*CHUNK_SIZE (ns for the last worker) covers every grid point once.
+    But not every grid point below ns is a batch: the sequence of batches ends with the first one that reaches the end of the recording, so a start f > 0 is a batch only
+    when the batch before it did not reach the end, f - S + NBATCH < ns, i.e. f + 2*TAPER < ns.  Inside one worker a break at last_s == ns stops there; a worker whose own
+    first grid point lies in the last 2*TAPER samples must not process it (it would add a batch no other worker count has: extra RMS row, tail rewritten)."""
+    cnt, cnt_test = _count_expr(worker)
+    CS = env.get("CHUNK_SIZE", Poly.sym("CHUNK_SIZE"))
+    want = {True: Poly.sym("_sr.ns"), False: (Poly.sym("i_chunk") + Poly.const(1)) * CS}
+    ms = [s_ for s_ in pre if isinstance(s_, ast.Assign) and loc_name(s_.targets[0]) == "max_s"]
+
+    def eval_case(expr, is_last_worker, extra_env=None):
+        def assume(t):
+            if cnt_test is not None and isinstance(t, ast.Compare) and norm(t) == norm(cnt_test):
+                return is_last_worker
+            return None
+        ev = Evaluator(env=dict(env), facts=facts.copy(), resolve=lambda x: repo.resolve_expr(worker, x), assume=assume)
+        sx = SymExec(ev, on_undecided="havoc")
+        _step_pre(worker, lp, pre, sx, ev)
+        if extra_env:
+            ev.env.update(extra_env)
+        return ev.ev(expr)
+    got = {}
+    for lastw in (True, False):
+        try:
+            got[lastw] = eval_case(ast.parse("max_s", mode="eval").body, lastw)
+        except Undecided as e_:
+            raise AnalysisError(f"max_s not evaluable: {e_}")
+    ctx.check(cnt is not None and got[True] == want[True] and got[False] == want[False], worker, ms[0] if ms else worker.node, f"while first_s < max_s; {src(ms[0]) if ms else ''}",
+              "worker i handles the batch starts below (i+1)*CHUNK_SIZE, the last worker those below ns",
+              f"batch starts are handled up to {got.get(True)} by the last worker (expected {want[True]}) and up to {got.get(False)} by worker i (expected {want[False]})", key="stop", name_free=True)
+    # ghost batches
+    F = Poly.sym("F")
+    tests = [t for t, pol in conjuncts(lp.test, True) if pol]
+    for st in lp.body:
+        if isinstance(st, ast.If) and st.body and isinstance(st.body[-1], ast.Break) and not st.orelse:
+            if lp.body.index(st) == 0 or all(not isinstance(x, (ast.Assign, ast.AugAssign)) or loc_name(getattr(x, "targets", [getattr(x, "target", None)])[0]) != "first_s" for x in lp.body[:lp.body.index(st)]):
+                if all(isinstance(x, (ast.Assign, ast.If)) for x in lp.body[:lp.body.index(st)]) and lp.body.index(st) <= 1:
+                    tests += [ast.UnaryOp(op=ast.Not(), operand=st.test)]
+    okg = False
+    need = Poly.sym("_sr.ns") - F - Poly.const(2) * T
+    for t in tests:
+        for tt, pol in conjuncts(t, True):
+            alts = tt.values if isinstance(tt, ast.BoolOp) and isinstance(tt.op, ast.Or) else [tt]
+            pos = [a for a in alts if not (isinstance(a, ast.Compare) and loc_name(a.left) == "first_s" and const_value(a.comparators[0]) == (True, 0) and isinstance(a.ops[0], ast.Eq))]
+            if len(pos) != 1 or not pol:
+                continue
+            a = pos[0]
+            neg = False
+            if isinstance(a, ast.UnaryOp) and isinstance(a.op, ast.Not):
+                a, neg = a.operand, True
+            if not (isinstance(a, ast.Compare) and len(a.ops) == 1):
+                continue
+            try:
+                l_ = eval_case(a.left, False, {"first_s": F})
+                r_ = eval_case(a.comparators[0], False, {"first_s": F})
+            except Undecided:
+                continue
+            op = type(a.ops[0])
+            if neg:
+                op = {ast.Lt: ast.GtE, ast.LtE: ast.Gt, ast.Gt: ast.LtE, ast.GtE: ast.Lt}.get(op, op)
+            d = (r_ - l_) if op in (ast.Lt, ast.LtE) else (l_ - r_) if op in (ast.Gt, ast.GtE) else None
+            if d is None:
+                continue
+            strict = op in (ast.Lt, ast.Gt)
+            # need > 0 ; d > 0 or d >= 0 given
+            if (strict and d == need) or (not strict and d == need - Poly.const(1)) or (strict and (need - d).const_value() is not None and (need - d).const_value() >= 0):
+                okg = True
+    ctx.check(okg, worker, lp, f"while {src(lp.test)[:80]}", "a grid point is processed only when the batch before it did not reach the end of the recording (first_s == 0 or first_s + 2*TAPER < ns)",
+              f"`while {src(lp.test)[:60]}` lets a worker start a batch at any grid point below max_s: when the batch that reaches the end of the recording belongs to the previous worker and another "
+              "grid point k*stride still lies in the last 2*TAPER samples inside this worker's chunk, this worker processes a batch that does not exist for other worker counts - an extra RMS row / "
+              "timestamp, saturation flags and the tail of the output rewritten from a double-tapered stub (needs first_s + 2*SAMPLES_TAPER < ns for first_s > 0)", key="ghost-batch", name_free=True)
+    ctx.shared["C06.count"] = cnt
+
+
 def _stop_rule_ownership(ctx, repo, worker, lp, pre, env, facts, interior, NB, T, S, own):
     """Worker i owns the batches P[i] .. P[i+1] - 1 (starts S*P[i] .. S*(P[i+1] - 1)): it must go on exactly while the NEXT start is below S*P[i+1]
     (the last worker while it is below ns - 2*TAPER, i.e. until a batch reaches the end)."""
@@ -401,6 +475,27 @@ def d1_tiling(ctx):
                 ast.parse("int(np.ceil(i_chunk * CHUNK_SIZE / NBATCH))", mode="eval").body)
         except Undecided:
             pass
+    start_own = False
+    if not okn and nb is not None and isinstance(lp, ast.While) and not (isinstance(lp.test, ast.Constant) and lp.test.value is True):
+        # ownership by batch START: worker i handles the batches that start inside its chunk, S*k in [i*CHUNK_SIZE, (i+1)*CHUNK_SIZE)
+        try:
+            evs = Evaluator(env=dict(env), facts=facts.copy(), resolve=lambda x: repo.resolve_expr(worker, x))
+            want_nb = evs.atom("ceil", (Poly.sym("i_chunk") * env.get("CHUNK_SIZE", Poly.sym("CHUNK_SIZE"))).div(S)) if (Poly.sym("i_chunk") * env.get("CHUNK_SIZE", Poly.sym("CHUNK_SIZE"))).div(S) is not None else None
+        except Exception:
+            want_nb = None
+        if nbd:
+            cl = [c for c in find(nbd[0].value, ast.Call) if call_name(c) == "ceil"]
+            if cl and isinstance(cl[0].args[0], ast.BinOp) and isinstance(cl[0].args[0].op, ast.Div):
+                try:
+                    evn2 = Evaluator(env=dict(env), facts=facts.copy(), resolve=lambda x: repo.resolve_expr(worker, x))
+                    start_own = evn2.ev(cl[0].args[0].right) == S and evn2.ev(cl[0].args[0].left) == Poly.sym("i_chunk") * env.get("CHUNK_SIZE", Poly.sym("CHUNK_SIZE"))
+                except Undecided:
+                    start_own = False
+        tests = [t for t, pol in conjuncts(lp.test, True) if pol]
+        start_own = start_own and any(isinstance(t, ast.Compare) and isinstance(t.ops[0], ast.Lt) and loc_name(t.left) == "first_s" and loc_name(t.comparators[0]) == "max_s" for t in tests)
+        if start_own:
+            okn = True
+            ctx.shared["C06.start_ownership"] = True
     own_ = _ownership(repo, outer, worker, pre)
     if not okn and own_ is not None:
         # batch-ownership design: worker i starts at the first batch of its share of a partition 0 = P[0] <= ... <= P[n] = number of batches
@@ -443,8 +538,10 @@ def d1_tiling(ctx):
             gs = []
             for t, pol in cfgw.guards(cfgw.node_for(s)):
                 gs += conjuncts(t, pol)
-            is0 = any(isinstance(t, ast.Compare) and loc_name(t.left) == "i_chunk" and const_value(t.comparators[0]) == (True, 0) and pol == isinstance(t.ops[0], ast.Eq) for t, pol in gs)
-            not0 = any(isinstance(t, ast.Compare) and loc_name(t.left) == "i_chunk" and const_value(t.comparators[0]) == (True, 0) and pol != isinstance(t.ops[0], ast.Eq) for t, pol in gs)
+            # worker 0 is the one whose first batch starts at sample 0: i_chunk == 0  <=>  n_batch == 0  <=>  first_s == 0 (before the loop)
+            W0 = ("i_chunk", "n_batch", "first_s")
+            is0 = any(isinstance(t, ast.Compare) and loc_name(t.left) in W0 and const_value(t.comparators[0]) == (True, 0) and pol == isinstance(t.ops[0], ast.Eq) for t, pol in gs)
+            not0 = any(isinstance(t, ast.Compare) and loc_name(t.left) in W0 and const_value(t.comparators[0]) == (True, 0) and pol != isinstance(t.ops[0], ast.Eq) for t, pol in gs)
             pos_expr = expand_name(duw, s.args[0], s) if isinstance(s.args[0], ast.Name) else s.args[0]
             try:
                 p = ev0.ev(pos_expr)
@@ -517,7 +614,10 @@ def d1_tiling(ctx):
     ctx.check(okrms, worker, r1[1] if r1 else worker.node, f"rms seek delta {(r1[0] - r0[0]) if r1 and r0 else None}", "one RMS row (ncv float32) and one time stamp per batch index",
               "RMS / time seeks are not n_batch rows of ncv (resp. 1) float32 values", key="rms-seek")
     # stop test: worker i goes on while the NEXT start is below max_s - 2*TAPER, max_s = (i+1)*CHUNK_SIZE, ns for the last worker
-    _stop_rule(ctx, repo, worker, lp, pre, env, facts, interior, NB, T, S, fs0)
+    if start_own:
+        _stop_rule_start_ownership(ctx, repo, worker, lp, pre, env, facts, NB, T, S)
+    else:
+        _stop_rule(ctx, repo, worker, lp, pre, env, facts, interior, NB, T, S, fs0)
     cs = env.get("CHUNK_SIZE")
     if ctx.shared.get("C06.ownership") is not None:
         P_, total_, nw_ = ctx.shared["C06.ownership"]
@@ -588,6 +688,9 @@ def d2_sync(ctx):
     cn = cfg.node_for(cs)
     intnorm_ok = False
     ind = [d for d in du.defs if d.var == "intnorm" and d.kind == "assign"]
+    if not ind:
+        # the reciprocal is computed once in the enclosing function (a value that does not depend on the batch) and read by the worker as a free variable
+        ind = [d for d in DefUse(outer.node).defs if d.var == "intnorm" and d.kind == "assign"]
     if ind:
         iv = ind[0].value
         intnorm_ok = isinstance(iv, ast.BinOp) and isinstance(iv.op, ast.Div) and const_value(iv.left) == (True, 1) and src(iv.right).endswith(".sample2volts")
